@@ -35,3 +35,8 @@ def check(repo, rep, tier):
     rep.run(rc.rule_list_order, cm, rep, 'C16.A7')
     rep.run(re_.rule_unquote_delimiters, cm, rep, 'C16.A8')
     rep.run(re_.rule_anonymous_variables, cm, rep, 'C16.A9')
+    from .. import rules_extra as rx
+    rep.run(rx.rule_source_reaches_lexer_unchanged, em, rep, 'C16.A10')
+    # every literal of a clause is compiled to the code of that very term (sample clauses incl. terms that print alike)
+    from .. import rules_clause as rcl
+    rep.run(rcl.rule_clause_head, cm, rep, 'C16.A11')
